@@ -15,8 +15,10 @@
     Wave 2 (below): the complete round trip for ALL TREES ([C07_tree_roundtrip]), the writer on ALL graphs
     ([C07_write_graph_is_print]), DFS spanning on ALL connected graphs ([C07_dfs_spanning]), the ring-marker
     allocator and its contract ([C07_get_ring_marker_spec], [C07_marks_invariant], [C07_no_open_ring]).
-    Not proved: the READ-BACK of ring-closing edges for arbitrary graphs (only bounded, [C07_small]); that the
-    recorded ring transcript is the set of non-tree edges is a contract evaluated per case ([ring_contract]). *)
+    Wave 4: [C07_roundtrip] -- the complete round trip for ALL plain connected graphs WITH ring edges, unbounded;
+    [C07_small] remains as an independent computational cross-check (it no longer carries the ring case).
+    Hypotheses that stay: the ring transcript's contract (the set order is a recorded transcript), and
+    "plain" (integer orders on every adjacency entry, no aromatic/bonding attribute) instead of wf_C07. *)
 From Coq Require Import String.
 From Coq Require Import List Ascii ZArith Bool.
 From CGV Require Import Base.PyBase Base.PyVal Base.NxGraph Write.WriteImpl Write.WriteDefs Write.WriteCheck
@@ -25,6 +27,7 @@ From CGV Require Import Dialect.DialectImpl Reader.ReaderImpl Reader.Grammar.
 From CGV Require Import Write.TreeDefs Write.TreeWrite Write.TreeTables Write.DfsProofs Write.WfFacts Write.ConnFacts Write.TreeRead
      Write.TreeRound Write.RingDefs Write.RingWrite Write.RingTables Write.RingMarkers Write.RingClose Write.RingRead Write.RingRound.
 From CGV Require Import Reader.Lin.
+From CGV Require Import Write.GraphOps Write.FlatMachine Write.FullMachine Write.FullRound.
 Import ListNotations.
 Open Scope Z_scope.
 
@@ -199,6 +202,30 @@ Example C07_rings_nonvacuous :
   /\ WriteRound.roundtrip_code ex_rings ex_rings_tr = 0%nat.
 Proof. exact (conj ring_example_plain (conj ring_example_contract (conj ring_example_text ring_example_roundtrip))). Qed.
 
+(** ================================================================ wave 4: ring edges, unbounded *)
+(** C07 for EVERY plain, well-formed, connected graph, ring-closing edges included: under the contract on the ring
+    transcript (tr = the non-tree edges, each once: the four hypotheses on tr; the set ORDER is arbitrary) and
+    outside the `%nn`-then-digit pattern, the reader model reads what the writer model writes as a graph
+    ISOMORPHIC to the input ([graph_iso]: a bijection on the nodes carrying the parsed attributes of every name
+    and the order of EVERY pair of nodes).  Composition: write_graph_is_print, the reader component's
+    reader_sim_lin, machine_flat (token machine = flat fold), run_inv (writer/reader ring tables in step, the
+    double-edge test never fires), iso_orders. *)
+Theorem C07_roundtrip : forall fo A g tr start,
+  plain_graph g = true -> connected g = true -> min_node g = Ok start ->
+  (forall e, In e tr -> fst e <> snd e /\ In (snd e) (neighbors g (fst e))) ->
+  nodup_edges tr = true ->
+  (forall e te, In e tr -> In te (dfs_tree g) -> same_edge e te = false) ->
+  (forall u v, has_edge g u v = true ->
+     (exists te, In te (dfs_tree g) /\ same_edge (u, v) te = true) \/ (exists e, In e tr /\ same_edge (u, v) e = true)) ->
+  (forall k, In k (node_keys g) -> name_ok fo (name_of g k) = true) ->
+  (forall k, parse_graph_base_node fo (name_of g k) = Ok (A k)) ->
+  exists T, rkey T = start /\ dfs_edges g start = Ok (redges T) /\ NoDup (rkeys T)
+    /\ (forall x, In x (rkeys T) <-> In x (node_keys g))
+    /\ (rings_plain (the_items (name_of g) (esym_of g) (rsym_of g tr) T tr) = true ->
+        exists s h, write_cgsmiles_graph g tr = Ok s /\ read_cgsmiles fo s = Ok h /\ graph_iso A g h).
+Proof. exact FullRound.C07_roundtrip. Qed.
+
+Print Assumptions C07_roundtrip.
 Print Assumptions C07_tree_roundtrip.
 Print Assumptions C07_rings_reader_sim_partial.
 Print Assumptions C07_write_graph_is_print.
